@@ -86,7 +86,7 @@ namespace Givaro {
 
 	template<class Ints>
 	RNSsystemFixed<Ints>::RNSsystemFixed (const Self_t& R) :
-		_primes(R._primes, givWithCopy())
+		_primes(R._primes), _RNS(R._RNS)
 	{}
 
 
